@@ -163,14 +163,70 @@ def run(repo, rep, tier):
     try:
         homogeneity(repo, rep, T)
     except AnalysisError as e:
-        if not rep.findings:
+        if not rep.has_new_findings():
             raise
         rep.note(f"typing stopped early ({e}); the violations above already decide the run")
     return explanation(rep)
 
 
+def scale_free_comparisons(repo, rep, rule):
+    """In the peak locator and the peak kernels every comparison that involves the spectral density is against zero or against
+    another density-derived value: a non-zero absolute constant (a tolerance, an epsilon) makes the located peak - hence tp, fp,
+    dpm, dpspr, gamma - change when the whole spectrum is multiplied by a constant."""
+    targets = [("wavespectra.specarray.SpecArray._peak", 1), ("wavespectra.core.npstats.tps", 1), ("wavespectra.core.npstats.tp", 1)]
+    ncmp = 0
+    for q, _ in targets:
+        fi = repo.func(q)
+        params = [p_ for p_ in fi.params if p_ != "self"]
+        # density-tainted names: the spectrum parameter (named arr / spectrum) and everything computed from it
+        seeds = {p_ for p_ in params if p_ in ("arr", "spectrum", "spec", "dset", "efth", "momsin", "momcos")}
+        if not seeds:
+            raise AnalysisError(f"{fi.short}: spectrum parameter not found")
+        taint = set(seeds)
+        dep = set(params)              # anything depending on any input
+        changed = True
+        while changed:
+            changed = False
+            for a_ in ast.walk(fi.node):
+                if isinstance(a_, ast.Assign):
+                    names = {x.id for x in ast.walk(a_.value) if isinstance(x, ast.Name)}
+                    for t_ in a_.targets:
+                        for x in ast.walk(t_):
+                            if isinstance(x, ast.Name):
+                                if names & taint and x.id not in taint:
+                                    taint.add(x.id); changed = True
+                                if names & dep and x.id not in dep:
+                                    dep.add(x.id); changed = True
+        for c_ in ast.walk(fi.node):
+            if not (isinstance(c_, ast.Compare) and len(c_.ops) == 1):
+                continue
+            sides = [c_.left, c_.comparators[0]]
+            tn = [bool({x.id for x in ast.walk(e_) if isinstance(x, ast.Name)} & taint) for e_ in sides]
+            if not any(tn):
+                continue
+            ncmp += 1
+            other = sides[1] if tn[0] else sides[0]
+            if all(tn):
+                rep.ok(rule, f"{fi.file}:{c_.lineno} {fi.short}", unparse(c_)[:70], "both sides derive from the spectrum (same degree)")
+                continue
+            v = repo.const(fi.module, other)
+            onames = {x.id for x in ast.walk(other) if isinstance(x, ast.Name)}
+            if v == 0 and v is not False:
+                rep.ok(rule, f"{fi.file}:{c_.lineno} {fi.short}", unparse(c_)[:70], "compared with zero: unchanged by scaling")
+            elif onames & dep and not (onames & taint):
+                rep.ok(rule, f"{fi.file}:{c_.lineno} {fi.short}", unparse(c_)[:70], "compared with an argument (caller's choice), not a built-in constant")
+            else:
+                rep.fail(rule, fi.file, c_.lineno, fi.qualname, unparse(c_)[:100],
+                         "a spectral-density quantity is compared with a non-zero absolute constant: whether a bin counts as a peak then "
+                         "depends on the overall scale of the spectrum, so tp / fp / dpm / dpspr / gamma change (or become NaN) under E -> k E",
+                         anchor=f"scale-dependent-comparison:{fi.short}")
+    rep.floor(rule, "density comparisons in the peak locator / kernels", ncmp, 2)
+
+
 def shared(repo, rep, T):
     # shared rules
+    rep.rule("R-C10-5", "peak detection is scale-free: density-derived values are only compared with zero or with each other")
+    scale_free_comparisons(repo, rep, "R-C10-5")
     from .c02 import nan_guards
     sub = type(rep)("C10-sub")
     nan_guards(repo, sub)
